@@ -197,3 +197,9 @@ def c14(work, tier, seed, replay):
 def c19(work, tier, seed, replay):
     import fam_api as fa
     return fa.c19(work, tier, seed)
+
+
+@check("C18")
+def c18(work, tier, seed, replay):
+    import fam_api as fa
+    return fa.c18(work, tier, seed)
